@@ -191,17 +191,16 @@ func (m *Model) RunErrLine(s *Sink, rule string) {
 	st := m.Method("textwire", "Template", "String")
 	if st != nil {
 		ok := false
-		for _, b := range st.Blocks {
-			for _, in := range b.Instrs {
-				if c, isC := in.(*ssa.Call); isC && c.Call.StaticCallee() != nil && c.Call.StaticCallee().Name() == "NewContext" {
-					if ex, isEx := c.Call.Args[0].(*ssa.Extract); isEx {
-						if src, isS := ex.Tuple.(*ssa.Call); isS && src.Call.StaticCallee() != nil && filepathAbsOfTemplate(m, src.Call.StaticCallee()) {
-							ok = true
-						}
+		// String's body, including same-package helpers it hands the work to (parameters resolved along the call chain)
+		m.walkInlined(st, 2, func(in ssa.Instruction, resolve func(ssa.Value) ssa.Value, _ int) {
+			if c, isC := in.(*ssa.Call); isC && c.Call.StaticCallee() != nil && c.Call.StaticCallee().Name() == "NewContext" {
+				if ex, isEx := resolve(c.Call.Args[0]).(*ssa.Extract); isEx {
+					if src, isS := ex.Tuple.(*ssa.Call); isS && src.Call.StaticCallee() != nil && filepathAbsOfTemplate(m, src.Call.StaticCallee()) {
+						ok = true
 					}
 				}
 			}
-		}
+		})
 		if ok {
 			s.OK(rule, fnKey(st)+"|evaluation path is the template's absolute path", m.Pos(st.Pos()), "ctx.AbsPath = filepath.Abs(TemplateDir/name+ext)")
 		} else {
@@ -211,19 +210,17 @@ func (m *Model) RunErrLine(s *Sink, rule string) {
 	// the evaluator that renders the page is built in this call from that context
 	if st != nil {
 		ok := false
-		for _, b := range st.Blocks {
-			for _, in := range b.Instrs {
-				c, isC := in.(*ssa.Call)
-				if !isC || !isEvalCall(m, c) {
-					continue
-				}
-				if nc, isN := c.Call.Args[0].(*ssa.Call); isN && nc.Call.StaticCallee() != nil && nc.Call.StaticCallee().Name() == "New" && inPkg(nc.Call.StaticCallee(), "evaluator") {
-					if cc, isCC := nc.Call.Args[0].(*ssa.Call); isCC && cc.Call.StaticCallee() != nil && cc.Call.StaticCallee().Name() == "NewContext" {
-						ok = true
-					}
+		m.walkInlined(st, 2, func(in ssa.Instruction, resolve func(ssa.Value) ssa.Value, _ int) {
+			c, isC := in.(*ssa.Call)
+			if !isC || !isEvalCall(m, c) {
+				return
+			}
+			if nc, isN := resolve(c.Call.Args[0]).(*ssa.Call); isN && nc.Call.StaticCallee() != nil && nc.Call.StaticCallee().Name() == "New" && inPkg(nc.Call.StaticCallee(), "evaluator") {
+				if cc, isCC := resolve(nc.Call.Args[0]).(*ssa.Call); isCC && cc.Call.StaticCallee() != nil && cc.Call.StaticCallee().Name() == "NewContext" {
+					ok = true
 				}
 			}
-		}
+		})
 		if ok {
 			s.OK(rule, fnKey(st)+"|each render gets its own evaluator and context", m.Pos(st.Pos()), "Eval is called on evaluator.New(ctx.NewContext(absPath, ...)) created in this call")
 		} else {
